@@ -123,7 +123,7 @@ def replace_elements_inplace(M, built, desc, rng):
 
 def numpy_steps(M, rec, rng, n_nets, draws=3, opts_prob=0.0, on_case=None, regimes=None,
                 before_case=None, mutate_prob=0.35,
-                scalar_shapes=("vec1", "0d", "float")):
+                scalar_shapes=("vec1", "0d", "float"), via_prob=0.2):
     """n_nets generated valid networks x `draws` value draws stepped with the NumPy
     engine from user arrays."""
     NE, CE = drive.engines(M)
@@ -134,6 +134,7 @@ def numpy_steps(M, rec, rng, n_nets, draws=3, opts_prob=0.0, on_case=None, regim
         shp, desc, built = make_net(M, g, shape, rng)
         rec.seen("shapes", shp)
         rec.seen("net_signatures", D.signature(desc))
+        keep_engine = NE() if rng.random() < 0.5 else None  # one engine object for all steps of this network
         for k in range(draws):
             reg = regimes[k % len(regimes)] if regimes else None
             regime, vals = g.values(desc, reg)
@@ -154,8 +155,12 @@ def numpy_steps(M, rec, rng, n_nets, draws=3, opts_prob=0.0, on_case=None, regim
                     "regime": regime, "shape": shp}
             if before_case:
                 before_case(case, built)
+            via = drive.pick_via(rng, via_prob)
+            if via != "net":
+                rec.count("numpy_cases_stepped_through_element_level_calls")
+                case["stepped_via"] = via
             try:
-                built.net.step(init_conditions=ic, engine=NE(), **opts, **drive.step_pars(pars))
+                drive.do_step(built.net, via, rng=rng, init_conditions=ic, engine=(keep_engine or NE()), **opts, **drive.step_pars(pars))
             except Exception:
                 pass  # recorded by the monitor
             if on_case:
@@ -178,7 +183,8 @@ def numpy_steps(M, rec, rng, n_nets, draws=3, opts_prob=0.0, on_case=None, regim
             if before_case:
                 before_case(case, built)
             try:
-                built.net.step(init_conditions=drive.np_init(built, vals, "vec1"), engine=NE(), **drive.step_pars(pars))
+                drive.do_step(built.net, drive.pick_via(rng, via_prob), rng=rng,
+                              init_conditions=drive.np_init(built, vals, "vec1"), engine=(keep_engine or NE()), **drive.step_pars(pars))
             except Exception:
                 pass
             if on_case:
@@ -197,7 +203,8 @@ def numpy_steps(M, rec, rng, n_nets, draws=3, opts_prob=0.0, on_case=None, regim
                 if before_case:
                     before_case(case, built)
                 try:
-                    built.net.step(init_conditions=drive.np_init(built, vals, "vec1"), engine=NE(), **drive.step_pars(pars))
+                    drive.do_step(built.net, drive.pick_via(rng, via_prob), rng=rng,
+                                  init_conditions=drive.np_init(built, vals, "vec1"), engine=(keep_engine or NE()), **drive.step_pars(pars))
                 except Exception:
                     pass
                 if on_case:
@@ -320,8 +327,12 @@ def symbolic_steps(M, rec, rng, symvals, n_nets, points=3, symtypes=("SX", "MX")
                 case = {"desc": desc, "vals": vals, "pars": pars, "opts": opts, "engine": st}
                 if before_case:
                     before_case(case, built)
+                via = drive.pick_via(rng, 0.2)
+                if via != "net":
+                    rec.count("symbolic_cases_stepped_through_element_level_calls")
+                    case["stepped_via"] = via
                 try:
-                    built.net.step(init_conditions=ic, engine=CE(st), **opts, **drive.step_pars(pars))
+                    drive.do_step(built.net, via, rng=rng, init_conditions=ic, engine=CE(st), **opts, **drive.step_pars(pars))
                 except Exception:
                     pass
                 if on_case:
@@ -334,8 +345,11 @@ def closed_loop(M, rec, rng, n_sims, steps, on_step=None, before_case=None):
     NE, CE = drive.engines(M)
     g = G.NetGen(rng)
     sh = shapes_cycle()
+    n_plans = 6
     for s in range(n_sims):
         shape = next(sh)
+        if s % n_plans in (1, 3):
+            shape = "allkinds"  # the loops that do not re-initialise every element see every element kind
         shp, desc, built = make_net(M, g, shape, rng)
         _, vals = g.values(desc, "interior", allow_inf=False)
         pars = g.pars()
@@ -347,7 +361,16 @@ def closed_loop(M, rec, rng, n_sims, steps, on_step=None, before_case=None):
         alive = True
         info = {"clamped": 0.0}
         eng = NE()  # one engine instance and one set of pre-allocated buffers for the whole run
-        buffers = drive.np_init(built, vals, "vec1") if s % 2 == 0 else None
+        # how the user's loop is written: through Network.step or through the element-level calls; from fresh
+        # arrays each step or from its own buffers refreshed in place; and, in a per-element loop over live
+        # buffers, whether the elements are initialised again at every step, only the links, or only once
+        plan = (("net", True, "all"), ("elements", True, "once"), ("net", False, "all"),
+                ("elements_links_first", True, "links"), ("elements_shuffled", False, "all"), ("elements", True, "all"))
+        via, use_buffers, reinit = plan[s % len(plan)]
+        buffers = drive.np_init(built, vals, "vec1") if use_buffers else None
+        if via != "net":
+            rec.count("simulations_stepped_through_element_level_calls")
+        rec.seen("simulation_loop_forms", (via, "buffers refreshed in place" if use_buffers else "fresh arrays", "init: " + reinit))
         for k in range(steps):
             if k % 30 == 0:
                 for o in desc["origins"]:
@@ -388,8 +411,15 @@ def closed_loop(M, rec, rng, n_sims, steps, on_step=None, before_case=None):
                 before_case({"desc": desc, "vals": vals, "pars": pars, "engine": "numpy",
                              "opts": {"positive_next_speed": True}, "sim_step": k}, built)
             try:
-                built.net.step(init_conditions=ic, engine=eng, positive_next_speed=True,
-                               **drive.step_pars(pars))
+                only = None
+                if via != "net" and k > 0 and buffers is not None and reinit != "all":
+                    live = all(el_.states is None or all(el_.states.get(n_) is a_ for n_, a_ in d_.items() if n_ in el_.states)
+                               for el_, d_ in buffers.items())
+                    if live:  # the elements hold the caller's own arrays: refreshing them in place is enough
+                        only = [] if reinit == "once" else list(built.links.values())
+                        rec.count("sim_steps_without_full_reinitialisation")
+                drive.do_step(built.net, via, rng=rng, init_conditions=ic, engine=eng, positive_next_speed=True,
+                              only_init=only, **drive.step_pars(pars))
                 nxt = drive.read_next(built)
             except Exception:
                 alive = False
@@ -416,6 +446,52 @@ def closed_loop(M, rec, rng, n_sims, steps, on_step=None, before_case=None):
                         vals[eid][name] = v
         if not alive:
             rec.count("sim_aborted_by_exception")
+
+
+def inplace_pairs(M, rec, rng, n_nets, before_case=None, on_case=None, allow_inf=True):
+    """A user's own per-element loop over live buffers: the elements are initialised once from the
+    caller's arrays and stepped; then the arrays are overwritten in place with unrelated values and the
+    elements are stepped again through the element-level calls, without re-initialising them (or
+    re-initialising the links only).  Anything remembered from the first step shows in the second."""
+    NE, CE = drive.engines(M)
+    g = G.NetGen(rng)
+    sh = shapes_cycle()
+    for it in range(n_nets):
+        shape = next(sh)
+        shp, desc, built = make_net(M, g, "allkinds" if it % 2 == 0 else shape, rng)
+        pars = g.pars()
+        eng = NE()
+        _, A = g.values(desc, allow_inf=False)
+        buffers = drive.np_init(built, A, "vec1")
+        try:
+            drive.do_step(built.net, rng.choice(drive.VIAS), rng=rng, init_conditions=buffers, engine=eng, **drive.step_pars(pars))
+        except Exception:
+            rec.count("inplace_pairs_first_step_failed")
+            continue
+        for _rep in range(2):
+            regime, B = g.values(desc, allow_inf=allow_inf)
+            live = all(el_.states is None or all(el_.states.get(n_) is a_ for n_, a_ in d_.items() if n_ in el_.states)
+                       for el_, d_ in buffers.items())
+            if not live:
+                rec.count("inplace_pairs_buffers_not_live")
+                break
+            fresh = drive.np_init(built, B, "vec1")
+            for el_, d_ in fresh.items():
+                for name_, arr_ in d_.items():
+                    buffers[el_][name_][...] = arr_
+            only = [] if rng.random() < 0.5 else list(built.links.values())
+            via = rng.choice(drive.VIAS[1:])
+            rec.count("steps_from_buffers_overwritten_in_place_without_reinitialisation")
+            case = {"desc": desc, "vals": B, "pars": pars, "opts": {}, "engine": "numpy", "regime": regime, "shape": shp,
+                    "stepped_via": via, "reinitialised": "nothing" if not only else "links only"}
+            if before_case:
+                before_case(case, built)
+            try:
+                drive.do_step(built.net, via, rng=rng, init_conditions=buffers, engine=eng, only_init=only, **drive.step_pars(pars))
+            except Exception:
+                pass
+            if on_case:
+                on_case(case, built)
 
 
 def repo_tests(rec, props, prefix="repotests_"):
